@@ -44,12 +44,33 @@ Cells ==
    \cup [in : {"cookie"}, style : {"form"}, explode : BOOLEAN]
 
 (* which value shapes OAS defines for a cell *)
-Defined(c, v) ==
+(* characters occurring in the strings of a value *)
+RECURSIVE Chars(_)
+Chars(v) == CASE v.t = "str" -> Range(v.cs)
+              [] v.t = "arr" -> UNION {Chars(v.a[i]) : i \in DOMAIN v.a}
+              [] v.t = "obj" -> UNION {Chars(v.v[i]) : i \in DOMAIN v.v}
+              [] OTHER -> {}
+
+(* characters that are structure, not content, for a value of this kind in this cell: a string holding one *)
+(* of them has no unambiguous serialisation there (OAS leaves escaping of delimiters open)                  *)
+Structural(c, v) ==
+   (IF v.t = "arr" THEN (CASE c.style = "spaceDelimited" -> {" "} [] c.style = "pipeDelimited" -> {"|"}
+                           [] c.style = "label" /\ c.explode -> {"."} [] c.style = "matrix" /\ c.explode -> {";"}
+                           [] c.style = "form" /\ c.explode -> {} [] OTHER -> {","})
+    ELSE IF v.t = "obj" THEN {",", "=", ".", ";", "[", "]"} ELSE {})
+   \cup (IF c.in = "path" THEN {"/"} ELSE {})
+   \* cookies and headers carry their value unescaped: only the query string and the path are percent-encoded by the realiser
+   \cup (IF c.in = "cookie" THEN {" ", "\t", "+", "%", "&", "=", ",", "|", ";"} ELSE {})
+   \cup (IF c.in = "header" THEN {"\t"} ELSE {})
+
+ShapeDefined(c, v) ==
    CASE c.style = "deepObject" -> v.t = "obj"
      [] c.style \in {"spaceDelimited", "pipeDelimited"} -> v.t = "arr"
      [] c.in = "cookie" -> IsPrim(v) \/ (~c.explode /\ (v.t = "arr" \/ IsFlatObj(v)))
                            \* exploded arrays/objects cannot be written in one cookie
      [] OTHER -> IsPrim(v) \/ v.t = "arr" \/ IsFlatObj(v)
+
+Defined(c, v) == ShapeDefined(c, v) /\ Chars(v) \cap Structural(c, v) = {}
 
 PathSeg(c, name, v) ==
    CASE c.style = "simple" ->
